@@ -57,8 +57,40 @@ func vfFrame(payload []byte) []byte {
 	return append(l[:], payload...)
 }
 
+var (
+	vfBigAnswerMu sync.Mutex
+	vfBigAnswers  = map[string][]byte{}
+)
+
+// vfSizedAnswer: a valid answer for the name whose encoding has exactly size bytes (a second, padding payload).
+func vfSizedAnswer(name, size int) []byte {
+	key := fmt.Sprintf("%d/%d", name, size)
+	vfBigAnswerMu.Lock()
+	defer vfBigAnswerMu.Unlock()
+	if b, ok := vfBigAnswers[key]; ok {
+		return b
+	}
+	pad := &conformancev1.ConformancePayload{}
+	resp := &conformancev1.ClientCompatResponse{TestName: vfC10Name(name),
+		Result: &conformancev1.ClientCompatResponse_Response{Response: &conformancev1.ClientResponseResult{
+			Payloads: []*conformancev1.ConformancePayload{{Data: []byte(fmt.Sprintf("answer-for-%d", name))}, pad}}}}
+	for l := size - 80; l <= size; l++ {
+		pad.Data = make([]byte, l)
+		if proto.Size(resp) == size {
+			data, _ := proto.Marshal(resp)
+			vfBigAnswers[key] = vfFrame(data)
+			return vfBigAnswers[key]
+		}
+	}
+	panic("verif: size not reachable")
+}
+
 func vfAnswerBytes(a vfAnswer) []byte {
 	switch a.Kind {
+	case "valid-at-limit": // the largest answer the runner accepts
+		return vfSizedAnswer(a.Name, maxClientResponseSize)
+	case "oversize-by-one":
+		return vfSizedAnswer(a.Name, maxClientResponseSize+1)
 	case "valid", "duplicate":
 		data, _ := proto.Marshal(&conformancev1.ClientCompatResponse{TestName: vfC10Name(a.Name),
 			Result: &conformancev1.ClientCompatResponse_Response{Response: &conformancev1.ClientResponseResult{
@@ -339,7 +371,7 @@ func vfC10Model(c vfC10Case) (answered map[int]bool, fatal string) {
 		}
 		written += len(data)
 		switch a.Kind {
-		case "valid":
+		case "valid", "valid-at-limit":
 			if answered[a.Name] {
 				return answered, "duplicate"
 			}
@@ -591,6 +623,36 @@ func TestVerifC10DuplicateSend(t *testing.T) {
 }
 
 var _ = bytes.Equal
+
+// TestVerifC10AtLimit: an answer of exactly the largest accepted size is an answer like any other; one byte more is
+// the "oversized message" failure. Same oracle as the random unit.
+func TestVerifC10AtLimit(t *testing.T) {
+	en := verifkit.NewEnum(t, "C10AtLimit")
+	var rc vfC10Case
+	if en.ReplayCase(&rc) {
+		if err := verifkit.SafeCall(func() error { return vfC10Check(rc) }); err != nil {
+			en.Fail(rc, err)
+		}
+		en.Done(false)
+		return
+	}
+	rows := []vfC10Case{
+		{Names: 1, Sends: [][]int{{0}}, Answers: []vfAnswer{{Kind: "valid-at-limit", Name: 0}}},
+		{Names: 3, Sends: [][]int{{0, 1, 2}}, Answers: []vfAnswer{{Kind: "valid", Name: 0}, {Kind: "valid-at-limit", Name: 1}, {Kind: "valid", Name: 2}}},
+		{Names: 3, Sends: [][]int{{0, 1}, {2}}, Answers: []vfAnswer{{Kind: "valid-at-limit", Name: 2}, {Kind: "valid-at-limit", Name: 0}, {Kind: "valid", Name: 1}}},
+		{Names: 3, Sends: [][]int{{0, 1, 2}}, Answers: []vfAnswer{{Kind: "valid", Name: 0}, {Kind: "oversize-by-one", Name: 1}, {Kind: "valid", Name: 2}}},
+	}
+	for _, c := range rows {
+		c.Cut, c.ReadStdin, c.Procs, c.Yields = -1, true, 4, []int{0}
+		err := verifkit.SafeCall(func() error { return vfC10Check(c) })
+		_, fatal := vfC10Model(c)
+		en.Rec.Observe(c, []string{"fatal:" + fatal, fmt.Sprintf("answers:%d", len(c.Answers))}, true)
+		if err != nil && en.Fail(c, err) {
+			break
+		}
+	}
+	en.Done(true)
+}
 
 // ---- C10 with a real OS process as the client (the --client command path: runCommand, os/exec pipes) ----
 
